@@ -50,6 +50,8 @@ static inline void *verif_new_array(size_t n, size_t sz) { void *p = malloc(n * 
 double nondet_double(void);
 int nondet_int(void);
 unsigned long nondet_ulong(void);
+unsigned int nondet_uint(void);
+long nondet_long(void);
 _Bool nondet_bool(void);
 char nondet_char(void);
 
